@@ -5,7 +5,7 @@ from .core import *  # noqa
 from .state import *  # noqa
 
 
-FEAS_TIMEOUT_MS = 3000
+FEAS_TIMEOUT_MS = 1500
 
 
 class EngineBase:
@@ -29,11 +29,33 @@ class EngineBase:
     def hyps(self):
         return list(self.st.pc) + list(self.guards)
 
+    def has_quant(self, t):
+        cache = self.__dict__.setdefault('_hq', {})
+        k = t.get_id()
+        if k in cache:
+            return cache[k]
+        r = False
+        todo = [t]
+        seen = set()
+        while todo:
+            x = todo.pop()
+            if x.get_id() in seen:
+                continue
+            seen.add(x.get_id())
+            if z3.is_quantifier(x):
+                r = True
+                break
+            todo.extend(x.children())
+        cache[k] = r
+        return r
+
     def feasible(self, cond):
+        """path pruning: only quantifier-free hypotheses are used (an over-approximation of feasibility is sound here)"""
         s = z3.Solver()
         s.set('timeout', FEAS_TIMEOUT_MS)
         for h in self.hyps():
-            s.add(h)
+            if not self.has_quant(h):
+                s.add(h)
         s.add(cond)
         self.stats['feas_checks'] += 1
         r = s.check()
